@@ -207,7 +207,8 @@ class Angle(object):
 
         (de, mi, se, sign) = Angle.reduce_dms(degrees, minutes, seconds)
         deg = sign * (de + mi / 60.0 + se / 3600.0)
-        return float(deg)
+        # The sum of the reduced pieces may round up to exactly 360 degrees
+        return Angle.reduce_deg(deg)
 
     def get_tolerance(self):
         """Gets the internal tolerance value used to compare Angles.
